@@ -194,7 +194,11 @@ func (g *Gen) GovStory(id string, blocks int) *Scenario {
 	for h := 1; h <= blocks; h++ {
 		if g.R.Intn(4) == 0 {
 			g.curH = int64(h)
-			evs = append(evs, ev{h, g.Tx([]string{"SEND", "STAKE", "UNSTAKE", "SEND"}[g.R.Intn(4)], false)})
+			kind := []string{"SEND", "STAKE", "UNSTAKE", "SEND"}[g.R.Intn(4)]
+			if third {
+				kind = "SEND" // the powers stay 5, 4, 3
+			}
+			evs = append(evs, ev{h, g.Tx(kind, false)})
 		}
 	}
 	sort.SliceStable(evs, func(i, j int) bool { return evs[i].h < evs[j].h })
@@ -230,6 +234,12 @@ func (g *Gen) GovFeeStory(id string, blocks int) *Scenario {
 	}
 	c := 3 + g.R.Intn(2) // the vote snapshot needs the validators known as active (from block 3 on)
 	upd := []string{"feeOption.minFeeDecimal:1", "feeOption.minFeeDecimal:0", "onsOptions.perBlockFees:20"}[g.R.Intn(3)]
+	if g.G.Fork > 0 {
+		// family govstake: on the genesis with the fork (which rewrites the staking options into the ranges the update
+		// language accepts) a proposal changes a staking option - the record is written under a height and is found
+		// through a last-update height, both of which a restarted node has to reproduce
+		upd = []string{"stakingOptions.maturityTime:109200", "stakingOptions.maturityTime:200000", "stakingOptions.maturityTime:468000"}[g.R.Intn(3)] // the only option the genesis leaves out of range
+	}
 	add(c, "PROP_CREATE", A{"id": "p1", "type": "config", "by": "a1", "amt": int(po.InitialFunding), "fundDL": c + 2, "goal": po.FundingGoal,
 		"voteDL": int64(c+2) + po.VotingDeadline, "pass": po.PassPct, "update": upd})
 	add(c+1, "PROP_FUND", A{"id": "p1", "by": "a2", "amt": int(po.FundingGoal)})
